@@ -19,7 +19,10 @@ partial def loop (h : IO.FS.Stream) (out : IO.FS.Stream) (f : String → String)
 def main (args : List String) : IO UInt32 := do
   let stdin ← IO.getStdin
   let stdout ← IO.getStdout
+  let tablePath := (← IO.getEnv "HDW_NFKD_TABLE").getD "data/nfkd_table.tsv"
+  let text ← (IO.FS.readFile tablePath) <|> pure ""
+  let env : Env := { nfkd := mkNfkdTable (parseNfkdTable text) }
   match args with
-  | ["model"] => loop stdin stdout runModelLine; return 0
-  | ["judge"] => loop stdin stdout runJudgeLine; return 0
+  | ["model"] => loop stdin stdout (runModelLine env); return 0
+  | ["judge"] => loop stdin stdout (runJudgeLine env); return 0
   | _ => IO.eprintln "usage: driver (model|judge)"; return 2
